@@ -19,7 +19,7 @@ from .. import gen as cgen
 
 PROP = 'C06'
 TIERS = {
-    'quick': {'runs': 1300, 'chunk': 10, 'wall_cap': 80, 'min_budget': 30},
+    'quick': {'runs': 2200, 'chunk': 10, 'wall_cap': 80, 'min_budget': 30},
     'thorough': {'runs': 120000, 'chunk': 25, 'wall_cap': 850, 'min_budget': 60},
 }
 RULE = ('case = seeded circuit + delays (1-3 datasets) + capacities + 1-3 batches (optionally a state transfer ppo->ppi followed by a propagation that keeps s) + 3-5 configuration pairs drawn '
